@@ -98,7 +98,9 @@ def run(ck):
                "MIP's ordering (S2) and over all assignments (S1), and refusal. non-trivial = distinct request with >=2 items and >=2 bins")
     fails = ck.judge("JIlp", keep, {"C17"}, what="C17 ILP options", chunk=400, count_events=lambda t: 1)
     # solver-inconsistency rule: an optimality rejection is re-solved once with preprocessing off
-    retry = [fl for fl in fails if fl["c"].startswith("C17.not_optimal") or fl["c"].startswith("C17.feasible_request_failed")]
+    # (any rejected un-injected answer is re-solved: an answer that violates the model the code built - wrong copies, broken constraint - with
+    #  status OPTIMAL is the solver's inconsistency if it disappears without preprocessing, and a violation if it persists)
+    retry = [fl for fl in fails if not fl["trace"]["inject"] and not fl["c"].startswith("C17.S1.")]
     rest = [fl for fl in fails if fl not in retry]
     if retry:
         st2 = []
@@ -109,7 +111,7 @@ def run(ck):
             st2.append(s)
         t2 = core.pmap(drive.run_ilp, st2)
         f2 = ck.judge("JIlp", t2, {"C17"}, what="C17 re-solve without preprocessing", chunk=400, count_events=lambda t: 1)
-        ck.cat("solver_inconsistency", len(retry) - len({id(f["trace"]) for f in f2}))
+        ck.cat("solver_inconsistency", len({json_key(fl["trace"]["vals"]) + json_key(fl["trace"]["copies"]) for fl in retry}) - len({id(f["trace"]) for f in f2 if not f["c"].startswith("C17.S1.")}))
         rest += f2
     ck.classify(rest, ctx_of)
     ck.assumptions += ["the MIP solver returns what it claims (its answer is judged, not its search); rejected optimality answers are re-solved once with preprocessing off",
